@@ -66,6 +66,7 @@ type Frame struct {
 	entry  *HeapSnap
 	params map[string]Term // entry values of parameters by name
 	callN  map[string]int
+	site   string // for inlined frames: the call site (chain)
 }
 
 type deferred struct {
@@ -96,6 +97,7 @@ type State struct {
 	seen   map[int]Term // iterator id -> visited set
 	counts map[string]Term
 	dead   bool
+	rgClean map[string]string
 }
 
 func (st *State) clone() *State {
@@ -108,6 +110,12 @@ func (st *State) clone() *State {
 	}
 	for k, v := range st.counts {
 		n.counts[k] = v
+	}
+	if st.rgClean != nil {
+		n.rgClean = map[string]string{}
+		for k, v := range st.rgClean {
+			n.rgClean[k] = v
+		}
 	}
 	n.pc = append([]Assump(nil), st.pc...)
 	n.path = append([]string(nil), st.path...)
@@ -216,6 +224,7 @@ type Session struct {
 	trusted map[string]bool
 	usedCon map[string]bool
 	iterN  int
+	curSite string
 	sweep  bool // zero-annotation mode: callees without contracts are havoc-all
 	rg     *rgInfo
 	maxPaths int
@@ -311,7 +320,22 @@ var epochCounter int
 func (s *Session) havocAll(st *State) {
 	oldBrk := s.H(st, "$brk", SInt)
 	epochCounter++
-	st.heap = map[string]Term{}
+	// captured local variables (Box cells) are not reachable by callees that were
+	// not handed their address: they survive (listed assumption)
+	keep := map[string]Term{}
+	for k, v := range st.heap {
+		if strings.HasPrefix(k, "Box_") {
+			keep[k] = v
+		}
+	}
+	for k, so := range s.hsort {
+		if strings.HasPrefix(k, "Box_") {
+			if _, ok := keep[k]; !ok {
+				keep[k] = s.H(st, k, so)
+			}
+		}
+	}
+	st.heap = keep
 	st.epoch = epochCounter
 	nb := s.H(st, "$brk", SInt)
 	st.assume(Le(oldBrk, nb))
@@ -422,7 +446,7 @@ func (s *Session) vcText(st *State, negGoal Term, g string) string {
 	var b strings.Builder
 	b.WriteString("; __DECLS__\n")
 	for _, a := range st.pc {
-		if g != "*" && a.G != "" && a.G != g {
+		if g != "*" && g != "" && a.G != "" && a.G != g {
 			continue
 		}
 		b.WriteString("(assert ")
@@ -609,6 +633,7 @@ func (s *Session) load(st *State, ptr Value, t types.Type, pos token.Pos, name s
 		}
 		return v
 	case *Loc:
+		s.rgLoad(st, p)
 		v := s.loadLoc(st, p)
 		st.assume(s.wellTyped(st, t, v))
 		return v
@@ -635,6 +660,7 @@ func (s *Session) store(st *State, ptr Value, t types.Type, val Value, pos token
 		p.Fr.cells[p.A] = s.asTermOrKeep(val, t)
 		return
 	case *Loc:
+		s.rgStore(st, p, s.asTerm(val, t), pos)
 		s.storeLoc(st, p, s.asTerm(val, t))
 		if strings.HasPrefix(p.Key, "Glob_") {
 			s.checkGlobalInvs(st, pos)
@@ -948,7 +974,12 @@ func (s *Session) modOfInstr(in ssa.Instruction, li *loopInfo, cells map[*ssa.Al
 	case *ssa.Call:
 		s.modOfCall(&x.Call, li, cells, depth)
 	case *ssa.Go:
-		s.modOfCall(&x.Call, li, cells, depth)
+		// the spawned function runs concurrently: its effects reach this thread only
+		// as interference on shared fields (race-freedom of everything else is assumed)
+		li.keys["$brk"] = SInt
+		if callee := x.Call.StaticCallee(); callee != nil {
+			s.callsiteGhostKeys("go "+relSuffix(s.P.fnName(callee)), li)
+		}
 	case *ssa.Defer:
 		s.modOfCall(&x.Call, li, cells, depth)
 	case *ssa.Next:
@@ -979,9 +1010,15 @@ func (s *Session) modOfCall(c *ssa.CallCommon, li *loopInfo, cells map[*ssa.Allo
 	var callee *ssa.Function
 	if c.IsInvoke() {
 		con = s.ifaceContract(c)
+		s.callsiteGhostKeys(ifaceMethodName(c), li)
 	} else if callee = c.StaticCallee(); callee != nil {
 		pkg, rel := s.P.qualName(callee)
 		con = s.P.contractOf(pkg, rel)
+		if callee.Pkg != nil && strings.HasPrefix(pkg, modPath) {
+			s.callsiteGhostKeys(s.P.fnName(callee), li)
+		} else {
+			s.callsiteGhostKeys(pkg+"."+rel, li)
+		}
 	}
 	if con != nil {
 		if con.ModAll || con.Flags["havocall"] {
@@ -1012,6 +1049,42 @@ func (s *Session) modOfCall(c *ssa.CallCommon, li *loopInfo, cells map[*ssa.Allo
 		return
 	}
 	li.modAll = true
+}
+
+// callsiteGhostKeys: ghost entries assigned by the caller's callsite clause for this callee.
+func (s *Session) callsiteGhostKeys(name string, li *loopInfo) {
+	if s.con == nil {
+		return
+	}
+	for _, cs := range s.con.Callsites {
+		if !(cs.Callee == name || strings.HasSuffix(name, "."+cs.Callee) || strings.HasSuffix(name, ")."+cs.Callee) || strings.HasSuffix(name, "/"+cs.Callee)) {
+			continue
+		}
+		for _, as := range append(append([]Assign{}, cs.Ghost...), cs.GhostPre...) {
+			var id *EIdent
+			switch l := as.LHS.(type) {
+			case *EIdent:
+				id = l
+			case *EIndex:
+				id, _ = l.X.(*EIdent)
+			}
+			if id == nil {
+				continue
+			}
+			for _, sp := range s.P.specs {
+				for _, g := range sp.Ghosts {
+					if g.Name == id.Name {
+						t := s.P.resolveType(s.fn.Pkg.Pkg, g.Type)
+						if mt, ok := t.(*types.Map); ok {
+							li.keys[ghostKey(g.Name)] = ArrSort(sortOf(mt.Key()), sortOf(mt.Elem()))
+						} else {
+							li.keys[ghostKey(g.Name)] = sortOf(t)
+						}
+					}
+				}
+			}
+		}
+	}
 }
 
 func globalKey(g *ssa.Global) string {
@@ -1053,5 +1126,5 @@ func (s *Session) canInline(fn *ssa.Function) bool {
 	if fn.Parent() != nil {
 		return true // closures invoked in place (defer func(){...}())
 	}
-	return n <= 40 && strings.HasPrefix(fn.Pkg.Pkg.Path(), modPath)
+	return n <= 90 && strings.HasPrefix(fn.Pkg.Pkg.Path(), modPath)
 }
